@@ -89,6 +89,7 @@ def showErr : ApiError → String
   | .dbExists n => s!"409 already_exists db:{xhex n}"
   | .limitExceeded => "409 limit_exceeded -"
   | .dbNotFound n => s!"404 not_found db:{xhex n}"
+  | .internal => "500 internal -"
   | .unknownHandler h => s!"599 unknown_handler {xhex h}"
 
 def showResult : RootResult → String
@@ -124,12 +125,14 @@ def target? (t : String) : Option Target :=
 
 def body? : List String → Option (Body × String)
   | ["malformed"] => some (.malformed, "")
-  | ["rpc", m, n, k, f, _pvar] => do
+  | ["rpc", m, n, k, f, pvar] => do
     let m ← xstr? m
     let n ← optX? n
     let k ← optX? k
     let f ← xstr? f
-    pure (.rpc m ⟨n, k⟩, f)
+    -- what the harness puts into `read_only` of the `*.set_read_only` parameters for this shape
+    let ro : Option Bool := if pvar = "n" then none else some (pvar = "ro")
+    pure (.rpc m ⟨n, k, ro⟩, f)
   | _ => none
 
 def request? : List String → Option Request
@@ -174,7 +177,7 @@ def step (d : DrvState) (line : String) : DrvState × String :=
   | ["tables"] =>
     (d, s!"root:{showTable Gen.ServerMethods.rootParse} db:{showTable Gen.ServerMethods.dbParse}")
   | ["state"] =>
-    (d, s!"bound={showNames (d.s.bound.map (·.1))} opened={showNames d.s.opened} registry={showNames d.s.registry} stored={showNames d.s.stored}")
+    (d, s!"bound={showNames (d.s.bound.map (·.1))} opened={showNames d.s.opened} registry={showNames d.s.registry} stored={showNames d.s.stored} primary_ro={d.s.primaryRO}")
   | _ => (d, "err:parse")
 
 end AndaVerif.Drv.C14
